@@ -369,6 +369,7 @@ pub enum F {
     SharedSub,
     OddFileName,
     Fifo,
+    SubInspectionFails,
     ExtraStranger,
     UnknownSchemeFunc,
     UnknownSchemeOwner,
@@ -418,6 +419,7 @@ pub fn fname(f: F) -> &'static str {
         F::SharedSub => "SHARED-SUBLAYOUT",
         F::OddFileName => "ODD-FILENAME",
         F::Fifo => "FIFO",
+        F::SubInspectionFails => "SUB-INSPECTION-FAILS",
         F::ExtraStranger => "EXTRA-STRANGER",
         F::UnknownSchemeFunc => "UNKNOWN-SCHEME-FUNCTIONARY",
         F::UnknownSchemeOwner => "UNKNOWN-SCHEME-OWNER",
@@ -684,6 +686,15 @@ pub fn apply_fault(t: &mut SupplyTrace, plan: &Plan, f: F, r: &mut Rng, prefer_s
                     clone.doc.signers = vec![kb];
                     clone.doc.ops.clear();
                     clone.subdir = format!("{}.{}", sname, keys::key(keyspecs[kb]).prefix());
+                    // the clone's inspections are other processes than the original's
+                    for i in clone.layout.inspect.iter_mut() {
+                        let (lvl, name) = match i.actor.id.split_once('#') {
+                            Some(x) => x,
+                            None => continue,
+                        };
+                        let parent = lvl.rsplit_once('/').map(|x| x.0).unwrap_or("root");
+                        i.actor.id = format!("{}/{}#{}", parent, clone.subdir, name);
+                    }
                     // the second delegation's own sub-directory stays empty / incomplete / dissents
                     match r.below(4) {
                         3 => {
@@ -1153,6 +1164,19 @@ pub fn apply_fault(t: &mut SupplyTrace, plan: &Plan, f: F, r: &mut Rng, prefer_s
                 doc.signers.push(x);
                 doc.ops.push(DocOp::SigShuffle(r.next()));
             }
+        }
+        F::SubInspectionFails => {
+            // an inspection of a delegated level is scripted to fail
+            let (lv, is_sub) = pick_level(&mut t.root, r, true);
+            if !is_sub || lv.layout.inspect.is_empty() {
+                return false;
+            }
+            let i = r.idx(lv.layout.inspect.len());
+            lv.layout.inspect[i].actor.exit = match r.below(3) {
+                0 => ExitSpec::Code(1 + r.below(200) as i32),
+                1 => ExitSpec::Signal(9),
+                _ => ExitSpec::NotFound,
+            };
         }
         F::ExtraStranger => {
             // next to the genuine evidence of a step: one more link for it, validly signed by somebody
